@@ -91,6 +91,9 @@ Pre13 == {Seg("a\nb\n", 2), Seg("text ", 0), Seg("{{ \"x\ny\" }}", 1), Seg("{{--
 \* single-line faults; rt = raised at run time (must be reached), otherwise at parse time
 Faults13 == {[s |-> "{{ zz }}", rt |-> TRUE, k |-> "undefined-identifier", dl |-> 0],
              [s |-> "{{ 1 + \"a\" }}", rt |-> TRUE, k |-> "mistyped-operand", dl |-> 0],
+             [s |-> "{{ {zz} }}", rt |-> TRUE, k |-> "undefined-identifier", dl |-> 0],
+             [s |-> "{{ {a: 1, zz}.a }}", rt |-> TRUE, k |-> "undefined-identifier", dl |-> 0],
+             [s |-> "{{ [1, zz][0] }}", rt |-> TRUE, k |-> "undefined-identifier", dl |-> 0],
              [s |-> "{{ \"s\".nope() }}", rt |-> TRUE, k |-> "unknown-function", dl |-> 0],
              [s |-> "{{ ob.nope }}", rt |-> TRUE, k |-> "unknown-property", dl |-> 0],
              [s |-> "{{ 1 / 0 }}", rt |-> TRUE, k |-> "division-by-zero", dl |-> 0],
